@@ -71,7 +71,7 @@ def cmdOf : Nat → List SkipCmd
   | 1 => [.predOn] | 2 => [.predOff] | 3 => [.corOn] | 4 => [.corOff] | 5 => [.allOn] | 6 => [.allOff]
   | _ => []
 
-/-- `sis N lin circ K D u_0…u_{D-1} w_0…w_{N-1} x_0…x_{N-1} (cmd freeze valid l_0…l_{N-1})×K`
+/-- `sis N lin circ K D prior ratio u_0…u_{D-1} w_0…w_{N-1} x_0…x_{N-1} (cmd freeze valid l_0…l_{N-1})×K`
     The harness' prediction is `DrawParticles` over a state model that adds 1 to every state entry;
     a particle is represented by the first entry of its state column.  One output block per step:
     `S cor.n cor.lin cor.circ |cor.parts| |cor.logw| pred.n pred.lin pred.circ |pred.parts| trig
@@ -79,6 +79,8 @@ def cmdOf : Nat → List SkipCmd
 def sis : R String := do
   let n ← nat; let lin ← nat; let circ ← nat; let k ← nat
   let d ← nat
+  let prior ← bool
+  let ratio ← flt
   let us ← listOf d flt
   let w0 ← listOf n flt
   let x0 ← listOf n flt
@@ -94,9 +96,14 @@ def sis : R String := do
   let cfg : SisCfg Float := { N := n, tiny := Float.ofBits 0x0010000000000000 }
   let init : PSet Float Float → PSet Float Float := fun s => { s with parts := x0, logw := w0 }
   let s0 := sisInit cfg lin circ init us
+  -- the resampling object: `Resampling`, or `ResamplingWithPrior` whose initialiser writes 5e6 + j
+  let pinit : PSet Float Float → PSet Float Float := fun s =>
+    { s with parts := (List.range s.parts.length).map (fun j => 5.0e6 + Float.ofNat j) }
+  let rsmp : PSet Float Float → PSet Float Float → Float → PSet Float Float × List Int :=
+    if prior then (fun cor _ u => resampleWithPrior floorNat sortIdxFloat pinit ratio cor u) else resample
   let (_, outs) := evs.foldl (fun (acc : SisState Float Float × Array String) ev =>
       let nf := neffLog (sisCorrect cfg acc.1 ev).logw
-      let s := sisStep cfg acc.1 ev
+      let s := sisStepWith rsmp cfg acc.1 ev
       let blk := ["S", toString s.cor.n, toString s.cor.lin, toString s.cor.circ,
                   toString s.cor.parts.length, toString s.cor.logw.length,
                   toString s.pred.n, toString s.pred.lin, toString s.pred.circ, toString s.pred.parts.length,
